@@ -165,4 +165,4 @@ def need(cond, msg):
 
 def stmt_key(node):
     """Position-free key for a statement / expression (normalised text)."""
-    return ' '.join(src(node).split())[:120]
+    return ' '.join(src(node).split())
